@@ -256,3 +256,4 @@ def run(rep, programs):
     from props import c23
     c23.run(rep, programs)
     c01.r_huge_coord(rep, prog)       # counter and bits that are changed together belong to the same huge frame
+    c01.r_units(rep, prog)            # row, huge and frame numbers are not confused when the search result is turned into a frame
